@@ -160,6 +160,44 @@ CLAIMS = {
              'Rounding, strided overlap that is not object identity and '
              'same-type dunder dispatch in nested power spaces are not '
              'decided.'),
+    'C11': dict(
+        cat='translation_validation', ref='DESIGN.md section 2, C11',
+        tech='symbolic interpretation of both members of each solver pair '
+             'from a generic symbolic state and comparison of normal forms; '
+             'n-then-m vs n+m resumption by the same interpretation; '
+             'callback trace comparison',
+        text='The three optimised/simple pairs (linearized ADMM, '
+             'alternating dual updates, double-proximal DC) are interpreted '
+             'for 1-3 iterations from symbolic x and symbolic dual '
+             'variables with uninterpreted operators/proximals/gradients: '
+             'iterates and state have equal normal forms.  Landweber, '
+             'Kaczmarz, proximal gradient, MLEM/OSMLEM, steepest descent '
+             'and PDHG (with x_relax, y passed back) are proved to resume '
+             'exactly; 16 solver loops hand the callback exactly one current'
+             ' iterate per (inner) iteration.  All problem instances are '
+             'covered at once because operators and functionals are '
+             'symbols.',
+        note='Trusted: ' + TB + '. Equality is in the free vector-space '
+             'algebra (exact arithmetic): rounding differences are outside. '
+             'Iteration counts 1..3 from a generic state; random orderings '
+             'are not covered.'),
+    'C12': dict(
+        cat='other', ref='DESIGN.md section 2, C12',
+        tech='symbolic execution with forks on the decrease test (path '
+             'rule), rational identities for default step sizes, alias '
+             '(two names, one cell) dataflow over solver loops, structural '
+             'unit-norm check of the power-method estimate',
+        text='Four structural clauses only: the Armijo gate of the '
+             'backtracking line search and its use by steepest descent; '
+             'default step sizes of PDHG and Douglas-Rachford satisfy their '
+             'admissibility products identically; saved iterates in solver '
+             'loops are copies (known finding: forward_backward_pd); the '
+             'power-method estimate is the norm of T applied to a '
+             'normalised vector on every exit.  The numerical clauses of '
+             'the property (monotone decrease, CG exactness, KKT, norm '
+             'bound) are NOT decided: they quantify over real arithmetic.',
+        note='Trusted: ' + TB + '. See clauses_not_decided in the '
+             'evidence; the claim is limited to the four listed clauses.'),
 }
 
 NOT_YET = 'check not implemented yet in this commit (DESIGN.md section 6 build order)'
